@@ -440,6 +440,11 @@ def finding_matches(entry: Dict[str, Any], prop: str, ob: Dict[str, Any]) -> boo
     return True
 
 
+def unknown_failures(ctx: Ctx) -> List[Dict[str, Any]]:
+    known = load_known()
+    return [o for o in ctx.obs if not o["ok"] and not any(finding_matches(k, ctx.prop, o) for k in known)]
+
+
 def finish(ctx: Ctx, evidence_path: Optional[Path], cmd: str) -> int:
     """Evaluate floors, split failures into known findings / violations, write
     evidence and replay files, print the verdict lines.  Returns exit code."""
